@@ -610,6 +610,42 @@ def render(deck, layout):
     return text
 
 
+def render_one_fortran(deck, rng):
+    '''Canonical text with exactly ONE parameter of a surface card or of a TR
+    data card respelled in a form only Fortran reads (5.0+0, .5d1); None when
+    the deck has no such parameter.'''
+    spots = []
+    for key in ('surfaces', 'data'):
+        for ci, card in enumerate(deck[key]):
+            if key == 'data' and not card[0][0].lstrip('*').lower().startswith('tr'):
+                continue
+            for ti, (_, kind, _) in enumerate(card):
+                if kind == 'fnum':
+                    spots.append((key, ci, ti))
+    if not spots:
+        return None
+    key, ci, ti = rng.choice(spots)
+    text, kind, glue = deck[key][ci][ti]
+    new = None
+    for _ in range(60):
+        cand = respell(rng, text, True)
+        try:
+            float(cand)
+        except ValueError:
+            new = cand
+            break
+    if new is None:
+        new = (text if '.' in text else text + '.') + rng.choice(['+0', '-0', 'd0', 'D+0'])
+    assert impl.mcnp_float(new) == float(text), (text, new)
+    copy = dict(deck)
+    cards = list(deck[key])
+    card = list(cards[ci])
+    card[ti] = (new, kind, glue)
+    cards[ci] = card
+    copy[key] = cards
+    return render(copy, None)
+
+
 # ---------------------------------------------------------------------------
 # abstract content of a written file (numbers read, composition names
 # resolved through GEOMCOMP)
